@@ -605,6 +605,10 @@ impl Check for C16 {
         8
     }
 
+    fn nondeterminism_is_finding(&self) -> bool {
+        true
+    }
+
     fn custom_command(&self, args: &[String]) -> Option<i32> {
         if args.first().map(String::as_str) != Some("--digest") {
             return None;
